@@ -27,6 +27,11 @@ T={
  'C09-b':('C09','handle_device_payload: per-ack reschedule(IncomingAck) replaced by a per-batch flag in the else-branch of force_ack','QoS>0 subscriber paused with a full inflight window and remaining backlog; its acknowledgements reach the router in the same batch as a PINGREQ / SUBSCRIBE / UNSUBSCRIBE / QoS>0 PUBLISH of that client: the IncomingAck wake-up is dropped and the backlog stalls'),
  'C10-b':('C10','MqttState::new (v4 and v5): incoming_pub bit set sized u16::MAX instead of u16::MAX + 1','an inbound QoS 2 publish with packet id exactly 65535: the client panics inside poll(), no PUBREC / PUBCOMP'),
  'C17-b':('C17','forward_device_data: member cursor only overwritten by the group cursor when the group cursor is ahead','a member joins a shared group that still has a backlog (turn holder paused inflight-full, or join and publishes in one event batch) and the turn reaches the joiner: the group cursor jumps over the backlog, which is never delivered'),
+ 'C06-b':('C06','ack_device_data: acks.drain(..).take(room) with room = 200 - uncollected notifications (drain drops what take() does not yield)','more pending acks than 200 minus the notifications still uncollected in the connection\'s outgoing buffer when it is consumed: subscriber with 150 uncollected forwards sends a batch of 60 QoS 1 publishes, or 250 requests accumulate while paused as busy; the surplus acks are lost'),
+ 'C07-b':('C07','MqttState::save_pubrel (v4): inflight += 1 removed','MQTT 3.1.1 client, QoS 2 publish past PUBREC, connection lost, session resumed (PUBREL replayed): the resumed flow is not counted in the window; limit+1 unacknowledged, id reused over an open release, later underflow of the counter'),
+ 'C11-b':('C11','EventLoop::next_request (v4): pending.pop_front() before the throttle sleep (skipped when the throttle is zero)','non-zero pending_throttle, requests carried over a failure, session resumed, and another select! arm (a broker packet, the keep-alive timer) fires during the throttle sleep: the popped request is dropped and never retransmitted'),
+ 'C16-b':('C16','handle_last_will: last_wills.get(..).cloned() instead of remove(..)','connection 1 of a client id registers a will and ends without DISCONNECT (will fires); connection 2 of the same id registers no will and also ends without DISCONNECT: the stale will is published again'),
+ 'C18-b':('C18','v5 EventLoop::poll: connection_timeout wraps only network_connect, not the CONNECT/CONNACK exchange','MQTT 5 client, transport connects, the broker never answers the CONNECT (or answers late): poll() stays pending for ever instead of reporting a timeout'),
  'C19-a':('C19','handle_auth: unknown user compared against the empty string','listener with a static credentials table (no callback), CONNECT with a user name not in the table and an empty/absent password: admitted'),
  'C20-a':('C20','forward_device_data: properties.insert(default) when adding the subscription identifier','MQTT 5 subscriber that subscribed with a subscription identifier receives a publish that carries properties of its own: all publisher properties are dropped'),
 }
